@@ -1,7 +1,7 @@
 (* Elf/ElfLink.v -- reloc_once for the modelled x86 relocation pass: after relocs_x86 every symbolic
    relocation slot holds the registered address of its symbol (mod 2^32), and nothing else changed. *)
 From Coq Require Import ZArith List Bool Lia String.
-From Falcon Require Import Base.Res IL.Const Mem.Backing Mem.BackingSpec Mem.BackingProofs Elf.ElfModel Elf.ElfProofs.
+From Falcon Require Import Base.Res IL.Const Mem.Backing Mem.BackingSpec Mem.BackingProofs Mem.BackingFree Elf.ElfModel Elf.ElfProofs.
 Import ListNotations.
 Local Open Scope Z_scope.
 Ltac Zify.zify_post_hook ::= Z.div_mod_to_equations.
@@ -99,4 +99,198 @@ Proof.
     + intros y Hy. rewrite FRM by (intros r0 Hr0; apply Hy; right; assumption). rewrite A1. unfold write32.
       pose proof (Hy r (or_introl eq_refl)) as Hyr. fold x in Hyr.
       destruct (Z.leb_spec x y); destruct (Z.ltb_spec y (x + 4)); cbn [andb]; try reflexivity. lia.
+Qed.
+
+(* ------------------------------------------------------------------ R_386_RELATIVE and the general pass *)
+(* the word a relocation must leave in its slot: the registered address of its symbol (symbolic kinds), or the
+   word found there plus the object's base (R_386_RELATIVE; the code's u32 addition is overflow-checked) *)
+Definition rel_val (B : Z) (dynsyms : list sym) (st : symtab) (m : sections Z) (r : rel) (w : Z) : Prop :=
+  (symbolic r /\ exists v, resolves dynsyms st r v /\ w = v mod 4294967296) \/
+  (r_type r = 8 /\ exists v0, read32 false (abs m) (r_offset r + B) = Some v0 /\
+                              w = B mod 4294967296 + v0 /\ 0 <= w < 4294967296).
+
+Lemma rel_val_frame B dynsyms st (m m1 : sections Z) r w :
+  (forall y, r_offset r + B <= y < r_offset r + B + 4 -> abs m1 y = abs m y) ->
+  rel_val B dynsyms st m r w -> rel_val B dynsyms st m1 r w.
+Proof.
+  intros H [S|(T & v0 & R & E)]; [left; exact S|right]. split; [assumption|]. exists v0. split; [|assumption].
+  rewrite <- R. apply read32_ext. assumption.
+Qed.
+
+Theorem relocs_x86_all B dynsyms st rs : forall m,
+  wf 0 m -> 0 <= B -> ForallOrdPairs apart rs ->
+  Forall (fun r => 0 <= r_offset r /\ slot_ok m (r_offset r + B)) rs ->
+  Forall (fun r => exists w, rel_val B dynsyms st m r w) rs ->
+  exists m', relocs_x86 B dynsyms st rs m = Ok m' /\ wf 0 m' /\ shape m' = shape m /\
+    (forall r w, In r rs -> rel_val B dynsyms st m r w -> read32 false (abs m') (r_offset r + B) = Some w) /\
+    (forall y, (forall r, In r rs -> ~ (r_offset r + B <= y < r_offset r + B + 4)) -> abs m' y = abs m y).
+Proof.
+  induction rs as [|r t IH]; intros m W HB FA FO FR.
+  - exists m. split; [reflexivity|]. split; [assumption|]. split; [reflexivity|]. split; [intros r w []|reflexivity].
+  - inversion FA as [|? ? Ar At]; subst. inversion FO as [|? ? Or Ot]; subst. inversion FR as [|? ? Rr Rt]; subst.
+    destruct Or as (O0 & (a & d & p & F & R)). destruct Rr as (w & RV).
+    destruct (find_sec_inv _ _ _ _ _ _ W F) as (_ & _ & R0 & _ & R1).
+    set (x := r_offset r + B) in *.
+    assert (Hw : 0 <= w < 4294967296).
+    { destruct RV as [(_ & v & _ & E)|(_ & v0 & _ & _ & E)]; [subst w; lia|assumption]. }
+    destruct (set32_within false m x w a d p W F R) as (m1 & E1 & W1 & A1 & L1).
+    assert (STEP : relocs_x86 B dynsyms st (r :: t) m = relocs_x86 B dynsyms st t m1).
+    { cbn [relocs_x86]. destruct RV as [(Sr & v & (s & Ns & Gs) & Ew)|(T & v0 & Rd & Ew & _)].
+      - destruct Sr as [T|[T|T]]; rewrite T; cbn [Z.eqb Pos.eqb orb]; rewrite Ns, Gs;
+          rewrite uadd_ok by (unfold x in *; lia); cbn [bind]; fold x; rewrite <- Ew; rewrite E1; reflexivity.
+      - rewrite T. cbn [Z.eqb Pos.eqb orb]. rewrite uadd_ok by (unfold x in *; lia). cbn [bind]. fold x.
+        destruct (get32_within false m x a d p W F R) as (v & Rv & G). rewrite G. cbn [bind].
+        fold x in Rd. rewrite Rd in Rv. inversion Rv; subst v. rewrite <- Ew.
+        destruct (Z.leb_spec 4294967296 w); [lia|]. rewrite E1. reflexivity. }
+    assert (FRAME1 : forall r0, In r0 t -> forall y, r_offset r0 + B <= y < r_offset r0 + B + 4 -> abs m1 y = abs m y).
+    { intros r0 Hr0 y Hy. rewrite A1. unfold write32.
+      pose proof (proj1 (Forall_forall _ _) Ar r0 Hr0) as AP. unfold apart in AP. unfold x.
+      destruct (Z.leb_spec (r_offset r + B) y); destruct (Z.ltb_spec y (r_offset r + B + 4)); cbn [andb]; try reflexivity. lia. }
+    assert (FO1 : Forall (fun r0 => 0 <= r_offset r0 /\ slot_ok m1 (r_offset r0 + B)) t).
+    { eapply Forall_impl; [|exact Ot]. cbn. intros r0 (H0 & H1). split; [assumption|]. eapply slot_ok_shape; [exact L1|exact H1]. }
+    assert (FR1 : Forall (fun r0 => exists w0, rel_val B dynsyms st m1 r0 w0) t).
+    { apply Forall_forall. intros r0 Hr0. destruct (proj1 (Forall_forall _ _) Rt r0 Hr0) as (w0 & RV0).
+      exists w0. eapply rel_val_frame; [|exact RV0]. apply FRAME1; assumption. }
+    destruct (IH m1 W1 HB At FO1 FR1) as (m' & E' & W' & L' & RD & FRM).
+    exists m'. split; [rewrite STEP; exact E'|]. split; [assumption|]. split; [rewrite L'; exact L1|]. split.
+    + intros r0 w0 [H|H] Rv0.
+      * subst r0. assert (w0 = w).
+        { destruct Rv0 as [(S1 & v & (s & Ns & Gs) & E)|(T1 & v0 & Rd & E & _)];
+          destruct RV as [(S2 & v2 & (s2 & Ns2 & Gs2) & E2)|(T2 & v2 & Rd2 & E2 & _)].
+          - rewrite Ns in Ns2. inversion Ns2; subst s2. rewrite Gs in Gs2. inversion Gs2; subst. reflexivity.
+          - exfalso. destruct S1 as [S1|[S1|S1]]; rewrite S1 in T2; discriminate.
+          - exfalso. destruct S2 as [S2|[S2|S2]]; rewrite S2 in T1; discriminate.
+          - rewrite Rd in Rd2. inversion Rd2; subst. reflexivity. }
+        subst w0. fold x.
+        rewrite (read32_ext false (abs m') (write32 false (abs m) x w) x).
+        -- apply read32_write32; [assumption|]. intros y Hy.
+           destruct (abs_in_section m x y a d p W F ltac:(lia)) as (b & _ & Ab). congruence.
+        -- intros y Hy. rewrite FRM; [apply A1|]. intros r0 Hr0.
+           pose proof (proj1 (Forall_forall _ _) Ar r0 Hr0) as AP. unfold apart in AP. unfold x in Hy. lia.
+      * apply RD; [assumption|]. eapply rel_val_frame; [|exact Rv0]. apply FRAME1; assumption.
+    + intros y Hy. rewrite FRM by (intros r0 Hr0; apply Hy; right; assumption). rewrite A1. unfold write32.
+      pose proof (Hy r (or_introl eq_refl)) as Hyr. fold x in Hyr.
+      destruct (Z.leb_spec x y); destruct (Z.ltb_spec y (x + 4)); cbn [andb]; try reflexivity. lia.
+Qed.
+
+(* ------------------------------------------------------------------ from the description: each PT_LOAD is one stored section *)
+Definition segs_apart (a b : phdr) : Prop :=
+  p_type a = 1 -> p_type b = 1 ->
+  p_vaddr a + p_memsz a <= p_vaddr b \/ p_vaddr b + p_memsz b <= p_vaddr a.
+
+Lemma copy_sections_eq (l : sections Z) : forall m, copy_sections m l = copy_all m l.
+Proof. induction l as [|[a [d p]] t IH]; intros m; [reflexivity|]. cbn [copy_sections copy_all]. destruct (set_memory m a d p); cbn [bind]; auto. Qed.
+
+Lemma load_segs_in file base phs : forall m,
+  Forall (seg_wf file base) phs -> ForallOrdPairs segs_apart phs -> wf 0 m ->
+  (forall ph, In ph phs -> p_type ph = 1 -> forall y, p_vaddr ph + base <= y < p_vaddr ph + base + p_memsz ph -> abs m y = None) ->
+  exists m', load_segs base file phs m = Ok m' /\ wf 0 m' /\ (forall x, In x m -> In x m') /\
+    (forall ph, In ph phs -> p_type ph = 1 -> 0 < p_memsz ph ->
+       exists bytes, In (p_vaddr ph + base, (bytes, perms_of_flags (p_flags ph))) m' /\ len bytes = p_memsz ph).
+Proof.
+  induction phs as [|ph t IH]; intros m F A W H.
+  - exists m. split; [reflexivity|]. split; [assumption|]. split; [auto|]. intros ph [].
+  - inversion F as [|? ? Hph Ft]; subst. inversion A as [|? ? Aph At]; subst. cbn [load_segs].
+    destruct (Z.eqb_spec (p_type ph) 1) as [T|T].
+    + destruct (seg_bytes_spec file base ph T Hph) as (bytes & Eb & Lb & _).
+      destruct (Hph T) as (O & Fz & FL & FU & FM & V & B & E & FLG).
+      rewrite Eb. cbn [bind]. rewrite uadd_ok by lia. cbn [bind].
+      assert (STEP : exists m1, set_memory m (p_vaddr ph + base) bytes (perms_of_flags (p_flags ph)) = Ok m1 /\ wf 0 m1 /\
+                (forall x, In x m -> In x m1) /\
+                (0 < p_memsz ph -> In (p_vaddr ph + base, (bytes, perms_of_flags (p_flags ph))) m1) /\
+                (forall y, abs m1 y = overwrite (abs m) (p_vaddr ph + base) bytes (perms_of_flags (p_flags ph)) y)).
+      { destruct (Z.eq_dec (p_memsz ph) 0) as [Z0|NZ].
+        - destruct (set_memory_spec m (p_vaddr ph + base) bytes (perms_of_flags (p_flags ph)) W ltac:(lia) ltac:(lia)) as (m1 & E1 & W1 & A1).
+          assert (bytes = []) by (apply len_nil_inv; lia). subst bytes. cbn in E1. inversion E1; subst m1.
+          exists m. split; [reflexivity|]. split; [assumption|]. split; [auto|]. split; [lia|assumption].
+        - assert (Fr : free m (p_vaddr ph + base) (len bytes)).
+          { eapply abs_none_free; [exact W|lia|]. intros y Ry. apply (H ph (or_introl eq_refl) T). lia. }
+          destruct (set_memory_free m (p_vaddr ph + base) bytes (perms_of_flags (p_flags ph)) W ltac:(lia) ltac:(lia) ltac:(lia) Fr)
+            as (m1 & E1 & W1 & I1 & P1 & A1).
+          exists m1. repeat split; auto. }
+      destruct STEP as (m1 & E1 & W1 & P1 & I1 & A1). rewrite E1. cbn [bind].
+      assert (H1 : forall ph', In ph' t -> p_type ph' = 1 -> forall y, p_vaddr ph' + base <= y < p_vaddr ph' + base + p_memsz ph' -> abs m1 y = None).
+      { intros ph' I' T' y Ry. rewrite A1. unfold overwrite.
+        pose proof (proj1 (Forall_forall _ _) Aph ph' I' T T') as AP.
+        assert (N : region_at (p_vaddr ph + base) bytes (perms_of_flags (p_flags ph)) y = None) by (apply region_at_none; lia).
+        rewrite N. apply (H ph' (or_intror I') T'). assumption. }
+      destruct (IH m1 Ft At W1 H1) as (m' & E' & W' & Pm & Pl).
+      exists m'. split; [assumption|]. split; [assumption|]. split; [auto|].
+      intros ph' [Eq|I'] T' M'; [subst ph'; exists bytes; split; [apply Pm, I1; assumption|assumption]|apply Pl; assumption].
+    + assert (H1 : forall ph', In ph' t -> p_type ph' = 1 -> forall y, p_vaddr ph' + base <= y < p_vaddr ph' + base + p_memsz ph' -> abs m y = None)
+        by (intros ph' I'; apply H; right; assumption).
+      destruct (IH m Ft At W H1) as (m' & E' & W' & Pm & Pl).
+      exists m'. split; [assumption|]. split; [assumption|]. split; [auto|].
+      intros ph' [Eq|I'] T' M'; [subst ph'; congruence|apply Pl; assumption].
+Qed.
+
+Lemma image_at_range file base phs x : forall r, image_at file base phs x = Some r ->
+  exists ph, In ph phs /\ p_type ph = 1 /\ p_vaddr ph + base <= x < p_vaddr ph + base + p_memsz ph.
+Proof.
+  induction phs as [|ph t IH]; intros r; [discriminate|]. cbn [image_at]. destruct (image_at file base t x) eqn:E.
+  - intros _. destruct (IH _ eq_refl) as (ph' & I' & R). exists ph'. split; [right; assumption|assumption].
+  - destruct (Z.eqb_spec (p_type ph) 1); cbn [andb]; [|discriminate].
+    destruct (Z.leb_spec (p_vaddr ph + base) x); destruct (Z.ltb_spec x (p_vaddr ph + base + p_memsz ph)); cbn [andb]; try discriminate.
+    intros _. exists ph. split; [left; reflexivity|]. split; [assumption|lia].
+Qed.
+
+(* well-formed two-object link, as a predicate on the description: both objects' PT_LOAD headers well-formed and
+   pairwise apart, no library segment overlaps a main segment, the library has no relocations of its own, main's
+   symbolic relocations have pairwise disjoint 4-byte slots, each inside one PT_LOAD segment of main *)
+Definition in_load (e : elfd) (off : Z) : Prop :=
+  exists ph, In ph (e_phdrs e) /\ p_type ph = 1 /\ p_vaddr ph <= off /\ off + 4 <= p_vaddr ph + p_memsz ph.
+
+Record link_wf (main : elfd) (mrels : list rel) (lib : elfd) (lrels : list rel) : Prop := {
+  lw_main : Forall (seg_wf (e_file main) 0) (e_phdrs main);
+  lw_lib : Forall (seg_wf (e_file lib) LIB_BASE) (e_phdrs lib);
+  lw_main_apart : ForallOrdPairs segs_apart (e_phdrs main);
+  lw_lib_apart : ForallOrdPairs segs_apart (e_phdrs lib);
+  lw_cross : forall a b, In a (e_phdrs main) -> In b (e_phdrs lib) -> p_type a = 1 -> p_type b = 1 ->
+             p_vaddr a + p_memsz a <= p_vaddr b + LIB_BASE \/ p_vaddr b + LIB_BASE + p_memsz b <= p_vaddr a;
+  lw_lib_norel : lrels ++ e_pltrelocs lib = [];
+  lw_slots_apart : ForallOrdPairs apart (mrels ++ e_pltrelocs main);
+  lw_slots_in : Forall (fun r => 0 <= r_offset r /\ in_load main (r_offset r)) (mrels ++ e_pltrelocs main) }.
+
+(* [U] reloc_once for the two-object link, from the description alone: the link succeeds and every relocation
+   slot of main reads the word its relocation prescribes (for symbolic kinds: the registered address of the
+   symbol, which by reloc_once_partial is st_value + base of the defining object, once) *)
+Theorem link2_reloc_once main mrels lib lrels ex1 ex2 :
+  link_wf main mrels lib lrels ->
+  exported 0 (e_dynsyms main) = Ok ex1 -> exported LIB_BASE (e_dynsyms lib) = Ok ex2 ->
+  Forall symbolic (mrels ++ e_pltrelocs main) ->
+  Forall (fun r => exists v, resolves (e_dynsyms main) (st_add (st_add [] ex1) ex2) r v) (mrels ++ e_pltrelocs main) ->
+  exists m', link2 main mrels lib lrels = Ok m' /\ wf 0 m' /\
+    forall r v, In r (mrels ++ e_pltrelocs main) -> resolves (e_dynsyms main) (st_add (st_add [] ex1) ex2) r v ->
+                read32 false (abs m') (r_offset r + 0) = Some (v mod 4294967296).
+Proof.
+  intros LW E1 E2 FS FR. destruct LW as [Lm Ll Am Al Cx NR SA SI].
+  unfold link2.
+  (* main *)
+  destruct (load_segs_in (e_file main) 0 (e_phdrs main) [] Lm Am I ltac:(reflexivity)) as (mm & Emm & Wmm & _ & Imm).
+  destruct (memory_image_thm main 0 Lm) as (mm' & Emm' & _ & Amm). unfold memory in *. rewrite Emm in Emm'. inversion Emm'; subst mm'.
+  rewrite Emm. cbn [bind]. rewrite copy_sections_eq.
+  destruct (copy_all_free mm 0 [] Wmm ltac:(lia) I ltac:(reflexivity)) as (m1 & Em1 & Wm1 & _ & I1 & A1).
+  rewrite Em1. cbn [bind]. rewrite E1. cbn [bind].
+  (* library *)
+  destruct (memory_image_thm lib LIB_BASE Ll) as (lm & Elm & Wlm & Alm). unfold memory in Elm. rewrite Elm. cbn [bind].
+  rewrite copy_sections_eq.
+  assert (FREE : forall y, abs lm y <> None -> abs m1 y = None).
+  { intros y Hy. rewrite A1. cbn [abs]. unfold empty_map.
+    destruct (abs mm y) as [r|] eqn:Am0; [|reflexivity]. exfalso.
+    rewrite Amm in Am0. apply image_at_range in Am0. destruct Am0 as (pa & Ia & Ta & Ra).
+    rewrite Alm in Hy. destruct (image_at (e_file lib) LIB_BASE (e_phdrs lib) y) eqn:Il; [|congruence].
+    apply image_at_range in Il. destruct Il as (pb & Ib & Tb & Rb).
+    destruct (Cx pa pb Ia Ib Ta Tb); lia. }
+  destruct (copy_all_free lm 0 m1 Wlm ltac:(lia) Wm1 FREE) as (m2 & Em2 & Wm2 & P2 & _ & A2).
+  rewrite Em2. cbn [bind]. rewrite E2. cbn [bind]. rewrite NR. cbn [relocs_x86 bind].
+  (* main's relocations *)
+  assert (SLOTS : Forall (fun r => 0 <= r_offset r /\ slot_ok m2 (r_offset r + 0)) (mrels ++ e_pltrelocs main)).
+  { eapply Forall_impl; [|exact SI]. cbn. intros r (O0 & ph & Iph & T & V1 & V2). split; [assumption|].
+    assert (M : 0 < p_memsz ph) by lia.
+    destruct (Imm ph Iph T M) as (bytes & Ib & Lb).
+    exists (p_vaddr ph + 0), bytes, (perms_of_flags (p_flags ph)). split; [|lia].
+    eapply In_find_sec; [exact Wm2| |lia]. apply P2, I1. exact Ib. }
+  destruct (relocs_x86_once 0 (e_dynsyms main) (st_add (st_add [] ex1) ex2) (mrels ++ e_pltrelocs main) m2 Wm2 ltac:(lia) FS SA SLOTS FR)
+    as (m' & E' & W' & _ & RD & _).
+  exists m'. split; [exact E'|]. split; [assumption|exact RD].
 Qed.
